@@ -359,6 +359,64 @@ pub fn run(tier: Tier) -> i32 {
         }
     }
 
+    // ---- pathological predecessors: "whichever other files are analysed in the same run".  On ONE thread (large stack)
+    //      every detector first runs on a source that is extreme in one dimension — nested far beyond any depth limit with
+    //      thousands of nodes below it, thousands of statements, a two-thousand-term operator chain, a source the parser
+    //      rejects (every detector panics) — and then every ordinary file is analysed by every detector; the results must be
+    //      those of the fresh-process baseline.  What the extreme source itself yields is not judged here.
+    {
+        let deep = format!(
+            "pragma solidity 0.8.19;\ncontract P {{\n  function f(uint256 a) public {{\n    x = {}g({}){};\n  }}\n}}\n",
+            "(".repeat(1100),
+            vec!["a"; 1300].join(", "),
+            ")".repeat(1100)
+        );
+        let wide = format!("pragma solidity 0.8.19;\ncontract P {{\n  uint256 x;\n  function f(uint256 a) public {{\n{}  }}\n}}\n", "    x = a + 1;\n".repeat(6000));
+        let chain = format!("pragma solidity 0.8.19;\ncontract P {{\n  function f(uint256 a) public returns (uint256) {{\n    return {};\n  }}\n}}\n", vec!["a"; 2000].join(" + "));
+        let rejected = "pragma solidity 0.8.19;\ncontract P { function f( { ) } ".to_string();
+        let poisons: Vec<(&str, String)> = vec![("nested-1100-with-1300-arguments", deep), ("6000-statements", wide), ("2000-term-chain", chain), ("rejected-by-the-parser", rejected)];
+        let fs2 = &fs;
+        let det2 = &detectors;
+        let r0b = &r0;
+        let found: Vec<Violation> = std::thread::scope(|sc| {
+            std::thread::Builder::new()
+                .stack_size(1usize << 30)
+                .spawn_scoped(sc, move || {
+                    let mut vs = Vec::new();
+                    for (pn, ptext) in &poisons {
+                        let t0 = std::time::Instant::now();
+                        for d in det2.iter() {
+                            let _ = dets::run_guarded(d, ptext, 0);
+                        }
+                        eprintln!("[C15 phase] extreme predecessor '{}': {:.1}s", pn, t0.elapsed().as_secs_f64());
+                        for f in 0..fs2.len() {
+                            for d in 0..det2.len() {
+                                let c = Call { f, d, fileno: 0 };
+                                let r = do_call(c, fs2, det2);
+                                if mismatch(c, &r, r0b, det2) {
+                                    vs.push(Violation {
+                                        site: format!("sequence:{}:verdict-depends-on-an-extreme-file-analysed-before", det2[d].name),
+                                        input: format!("{} analysed on the same thread after every detector ran on a source of kind '{}'", describe(c), pn),
+                                        expected: format!("{:?}", r0b.get(&(f, det2[d].name))),
+                                        observed: format!("{:?}", r),
+                                        size: 2,
+                                        unit_test: String::new(),
+                                        extra: json!({"predecessor": pn}),
+                                    });
+                                }
+                            }
+                        }
+                    }
+                    vs
+                })
+                .unwrap()
+                .join()
+                .unwrap_or_default()
+        });
+        dir_states += (4 * (detectors.len() + fs.len() * detectors.len())) as u64;
+        run.merge_violations(found);
+    }
+
     // ---- lists in which a pattern is named more than once (a configuration file may do that): [a, b, a] for every
     //      ordered pair of one category and [a, a]; the lines of every (file, pattern) entry are still those of the
     //      file analysed alone, and no (file, pattern) with findings is lost
